@@ -22,14 +22,15 @@ def run(ctx):
     monitor.enable(*monitors(ctx))
     from .. import w_suite
     w_suite.maybe(ctx)      # thorough tier: the repository's own tests under this property's monitors
-    from .. import w_misc
-    w_misc.drive_session(ctx, ctx.tier)   # long-lived signature objects through many operations
+    from .. import w_misc, core
     ctx.floor('C09.aligned', 300)
     ctx.floor('C09.law_fold', 50)
     ctx.floor('C09.law_roundtrip', 100)
     ctx.floor('C09.law_neutral', 100)
-    w_alg.drive_merge_laws(ctx, ctx.tier)
-    w_alg.drive_merge(ctx, ctx.tier, want='aligned')
+    core.run_slices(ctx, [
+        (3, lambda: w_alg.drive_merge_laws(ctx, ctx.tier)),
+        (6, lambda: w_alg.drive_merge(ctx, ctx.tier, want='aligned')),
+        (1, lambda: w_misc.drive_session(ctx, ctx.tier))])    # long-lived signature objects through many operations
 
 
 def replay(ctx, rec):
